@@ -116,6 +116,15 @@ func judgeAccepted(entry string, raw []byte, chainID int64, addr *ethtypes.Addre
 		return append(vs, evid.V("result-complete", "%s: nil error but address/transaction missing", entry))
 	}
 	is1559 := len(raw) > 0 && raw[0] == 0x02 && entry != "RecoverLegacyRawTransaction"
+	if chainID < 0 {
+		// no transaction is valid for a negative chain id. A type-0x02 transaction embeds an unsigned
+		// chain id, which can never equal it: acceptance breaks the statement's refusal clause. What a
+		// legacy transaction means under a negative chain id is not specified anywhere: not judged.
+		if is1559 {
+			return append(vs, evid.V("chainid-mismatch-refused", "%s: type-0x02 transaction accepted for the supplied chain id %d", entry, chainID))
+		}
+		return nil
+	}
 	body := raw
 	if is1559 {
 		body = raw[1:]
@@ -315,7 +324,7 @@ func judgeRaw(raw []byte, chainID int64) (vs []evid.Violation, out outcome) {
 		} else if in, _, derr := rlpref.Decode(raw[1:], false); derr != nil || !in.IsList || len(in.List) < 9 {
 			vs = append(vs, evid.V("decode1559-shape", "DecodeEIP1559SignaturePayload accepted an input that is not a list of >= 9 elements: %s", short(raw)))
 		} else {
-			if in.List[0].IsList || new(big.Int).SetBytes(in.List[0].Str).Cmp(big.NewInt(chainID)) != 0 {
+			if chainID < 0 || in.List[0].IsList || new(big.Int).SetBytes(in.List[0].Str).Cmp(big.NewInt(chainID)) != 0 {
 				vs = append(vs, evid.V("chainid-mismatch-refused", "DecodeEIP1559SignaturePayload: embedded chain id accepted for supplied %d", chainID))
 			}
 			vs = append(vs, checkFields("input", tx, in.List, true)...)
@@ -609,10 +618,8 @@ func mutate(rt *rapid.T, b *built) (raw []byte, supplied int64, labels []string)
 			}
 			labels = append(labels, "mut:type-byte")
 		case 7: // chain id: supplied differs from embedded
-			supplied = rapid.SampledFrom([]int64{0, 1, 2, 1337, 1338, 110, 111, 1 << 31, 1 << 53, b.chain + 1, b.chain + 128}).Draw(rt, lbl+".supplied")
-			if supplied < 0 {
-				supplied = 0
-			}
+			// "any chain id": negative values are int64 inputs too (no transaction is valid for them)
+			supplied = rapid.SampledFrom([]int64{0, 1, 2, 1337, 1338, 110, 111, 1 << 31, 1 << 53, b.chain + 1, b.chain + 128, -1, -2, -b.chain, -1 << 63}).Draw(rt, lbl+".supplied")
 			labels = append(labels, "mut:supplied-chainid")
 		case 8: // embedded chain id changed and re-signed (type 2) – a genuine signature for another chain
 			if b.mode == txmodel.ModeEIP1559 && len(b.items) >= 9 {
